@@ -3,7 +3,7 @@
 FS = ('FS layer: RollingWriter::{write,persist,forward,num_bytes_remaining_in_block,current_file} are VERIFIED against the BlockWrite contract over ghost state and the ASSUMED contracts of the '
       'BufWriter<File> stand-in vshim::BufFile (R17: with_capacity/write_all/flush/sync_data/seek; content/flushed/synced ghost lengths) plus one named assumption A-stream-bound (fewer than 2^62 bytes through one writer); '
       'RollingReader::{open,next_block,block,into_writer} (into_writer through R27 and the assumed contract of <File as Seek>::seek: the writer continues in the file the reader stood in, with the same tracker, at the start of the block the reader stood on), read_block (only the error kind UnexpectedEof becomes "no more block"), FileTracker::{take_first_unused,first,count,next,inc,new} (next/inc over the R26 shim for BTreeSet::range(..).next()), Directory::{gc,has_files_that_can_be_deleted,first_file_number}, {Frame,Record}Writer::directory are VERIFIED against the ghost FS model of spec/vfs.rs (RollingReader::open over the read_exact stand-in R20, its body verified under the name open__verif_impl, DESIGN.md 13.10); '
-      'Directory::open is VERIFIED over a ghost model of the directory listing (R29 stand-in for ReadDir; assumed std contracts of DirEntry::{file_type,file_name}, FileType::is_file, OsStr::to_str, Path::to_path_buf): it tracks exactly the regular files with a UTF-8 name of the WAL form, reports every listing error, and creates file 0 only if there is none; still trusted (contracts assumed): Directory::{open_file,sync_directory}, create_file, the read_exact stand-ins (R20), FileTracker::from_file_numbers, RollingWriter::size, FileNumber::can_be_deleted; named assumptions A-file-number-bound (file numbers below 2^63), A-file-size (a WAL file holds at most 4096 full blocks) and A-stream-bound, each an explicit `assume` counted by the mechanical scan')
+      'Directory::open is VERIFIED over a ghost model of the directory listing (R29 stand-in for ReadDir; assumed std contracts of DirEntry::{file_type,file_name}, FileType::is_file, OsStr::to_str, Path::to_path_buf): it tracks exactly the regular files with a UTF-8 name of the WAL form, reports every listing error, and creates file 0 only if there is none; still trusted (contracts assumed): Directory::{open_file,sync_directory}, create_file, the read_exact stand-ins (R20), FileTracker::from_file_numbers, FileNumber::can_be_deleted; named assumptions A-file-number-bound (file numbers below 2^63), A-file-count (fewer than 2^37 tracked files: RollingWriter::size, verified, multiplies without overflow), A-file-size (a WAL file holds at most 4096 full blocks) and A-stream-bound, each an explicit `assume` counted by the mechanical scan')
 
 LEMMAS = {
     'C01': ['vspec::lemma_parse_ser_item', 'vspec::lemma_parse_ser_items', 'vspec::lemma_parse_ser_entry', 'vspec::lemma_replay_items_is_append_all', 'vspec::lemma_ser_items_empty', 'vspec::lemma_replay_history',
@@ -76,7 +76,7 @@ PROPS = {
                 '(3) E-gate, BOUNDED, native exhaustive enumeration (not symbolic; CBMC exceeds 12 GB on any BTreeSet<FileNumber>): for trackers of 1..=5 files and every subset of pinned files, the GC gate has_files_that_can_be_deleted() is true exactly when a GC pass removes a file, and the pass removes exactly the unpinned prefix short of the last file.',
         kani_quick=['K-handles', 'E-gate'], kani_thorough=[],
         trusted=['everything outside the harness'],
-        not_decided=['that can_be_deleted() is true exactly when no queue retains a record of the file (Arc strong counts; bounded K-handles only)', 'the directory listing itself', 'disk_used_bytes == tracked files x 128 MiB is verified in resource_usage over the ASSUMED contract of RollingWriter::size (O-C06-disk-used); that the files on disk have that size is not'],
+        not_decided=['that can_be_deleted() is true exactly when no queue retains a record of the file (Arc strong counts; bounded K-handles only)', 'the directory listing itself', 'disk_used_bytes == tracked files x 128 MiB is verified (resource_usage O-C06-disk-used over RollingWriter::size O-rwr-size); that the files on disk have that size is not'],
     ),
     'C07': dict(
         level='proof',
